@@ -34,6 +34,7 @@ FIXTURES = [
     ("c19_bad_check_last_only", "bad", ["Y1"]),
     ("c19_bad_index_mut_inline", "bad", ["Y2"]),
     ("c19_bad_from_slice_no_len", "bad", ["Y3"]),
+    ("c19_bad_from_vec_truncates", "bad", ["Y3"]),
     ("c19_bad_eq_data_only", "bad", ["Y4"]),
     ("c19_bad_column_major", "bad", ["Y5"]),
     ("c19_good_debug_names", "good", []),
@@ -216,6 +217,9 @@ def _rest(col, crate, adt, gi, DIMS, DATA, sfx):
             dims, data = ret[2][DIMS], ret[2][DATA]
             zero_ok = False
             len_ok = False
+            truncated = False
+            # parameters that carry the caller's data (a Vec, a slice, an iterator): its length is what must be compared
+            data_params = [("param", k_, Ib.names.get(k_)) for k_ in range(1, b.arg_count + 1) if _carries_data(str(b.locals[k_]["ty"]))]
             for f in st.facts:
                 t = f[1]
                 if t[0] == "call" and str(t[1]).endswith("::contains") and f[0] == "eq" and f[2] == 0:
@@ -240,10 +244,12 @@ def _rest(col, crate, adt, gi, DIMS, DATA, sfx):
                         zero_ok = True
                 if t[0] == "bin" and t[1] == "Eq" and f[0] == "eq" and f[2] == 1:
                     sides = (t[2], t[3])
-                    if any(_is_product_of(s, dims) for s in sides) and any(s[0] == "len" for s in sides):
+                    if any(_is_product_of(s, dims) for s in sides) and any(s[0] == "len" and (not data_params or _whole_input(s[1], data_params)) for s in sides):
                         len_ok = True
-            if not len_ok:
-                # data built with length product(dims)
+                    elif any(_is_product_of(s, dims) for s in sides) and any(s[0] == "len" for s in sides):
+                        truncated = True
+            if not len_ok and not data_params:
+                # no input data to reject (new, read): data built with length product(dims)
                 for s in subterms(data):
                     if s[0] == "call" and any(_is_product_of(a, dims) for a in s[2] if isinstance(a, tuple)):
                         len_ok = True
@@ -252,7 +258,7 @@ def _rest(col, crate, adt, gi, DIMS, DATA, sfx):
             if zero_ok and len_ok:
                 col.ok("Y3" + sfx, loc, key, "non-zero extents asserted; length tied to product(dims)")
             else:
-                col.violation("Y3" + sfx, key, loc, "%s constructs a Tensor without %s" % (b.path, " and ".join(x for x, ok in (("rejecting zero extents", zero_ok), ("tying the data length to the product of the extents", len_ok)) if not ok)))
+                col.violation("Y3" + sfx, key, loc, "%s constructs a Tensor without %s" % (b.path, " and ".join(x for x, ok in (("rejecting zero extents", zero_ok), ("tying the data length to the product of the extents" + (" (the length compared is that of a collection already cut to the product by take/skip/filter, not of the caller's data: overlong input is silently truncated)" if truncated else ""), len_ok)) if not ok)))
 
     # ---------------- Y4
     eqb = None
@@ -425,6 +431,45 @@ def _reads(a, dims, I, st):
             return I.read_pl(st, a[1]) == dims
         except Exception:
             return False
+    return False
+
+
+def _carries_data(ty):
+    ty = ty.replace("alloc::", "std::")
+    if ty.startswith("[usize;") or "Reader" in ty:
+        return False
+    return ty.startswith(("std::vec::Vec<", "&[", "&mut [", "&std::vec::Vec<")) or "IntoIterator" in ty or "Iterator<" in ty
+
+
+_LEN_PRESERVING = ("to_vec", "collect", "into_iter", "iter", "cloned", "copied", "map", "rev", "clone", "into_vec", "to_owned", "into_boxed_slice", "from", "into", "deref", "as_slice", "from_iter")
+
+
+def _whole_input(x, data_params):
+    """x is one of the caller's data parameters, or a collection built from it by length-preserving steps only
+    (no take / skip / filter / step_by / chain / zip ...)"""
+    for _ in range(12):
+        if x in data_params:
+            return True
+        if not isinstance(x, tuple) or not x:
+            return False
+        if x[0] == "ref":
+            x = x[1]
+            continue
+        if x[0] in ("deref", "constval"):
+            x = x[1]
+            continue
+        if x[0] == "load":
+            x = x[2]
+            continue
+        if x[0] == "call":
+            if str(x[1]).split("::")[-1] not in _LEN_PRESERVING:
+                return False
+            args = [a for a in x[2] if not (isinstance(a, tuple) and a and a[0] == "mem")]
+            if not args:
+                return False
+            x = args[0]
+            continue
+        return False
     return False
 
 
